@@ -481,11 +481,23 @@ func int64Case(t *mon.T) {
 	x2.SetFinite(iv, e)
 	chk("SetFinite", x2, e)
 	bv := bigValue(r)
-	nb := apd.NewWithBigInt(new(apd.BigInt).SetMathBigInt(bv), e)
+	arg := new(apd.BigInt).SetMathBigInt(bv)
+	nb := apd.NewWithBigInt(arg, e)
 	g := br.FromApd(nb)
 	t.Eval()
 	if g.Form != dec.Finite || g.C.CmpAbs(bv) != 0 || g.C.Sign() < 0 || (g.Neg != (bv.Sign() < 0)) || g.E != int64(e) {
 		t.Fail("constructor-inexact", map[string]interface{}{"op": "NewWithBigInt", "v": bv.String(), "got": g.FullString()})
+	}
+	// the Decimal represents the value its argument had: what the caller does
+	// with the argument afterwards (an accumulator that keeps growing) must
+	// not reach it, and the argument must be left as it was
+	if arg.String() != bv.String() {
+		t.Fail("constructor-inexact", map[string]interface{}{"op": "NewWithBigInt", "v": bv.String(), "why": "argument changed by the constructor", "arg": arg.String()})
+	}
+	arg.Mul(arg, apd.NewBigInt(r.Range(2, 99)))
+	arg.Add(arg, apd.NewBigInt(1))
+	if g2 := br.FromApd(nb); g2.C.CmpAbs(bv) != 0 || g2.E != int64(e) {
+		t.Fail("constructor-inexact", map[string]interface{}{"op": "NewWithBigInt", "v": bv.String(), "why": "the Decimal changed when its constructor argument was modified afterwards", "got": g2.FullString()})
 	}
 	t.Count("constructors")
 }
